@@ -5,11 +5,13 @@
 package main
 
 import (
+	"encoding/json"
 	"fmt"
 	"io"
 	"log"
 	"os"
 	"runtime"
+	"runtime/debug"
 	"sort"
 
 	"verif/h/mc"
@@ -46,12 +48,23 @@ func main() {
 		fmt.Fprintln(os.Stderr, "usage: verifs <property> <quick|thorough>; known:", ids)
 		os.Exit(2)
 	}
+	// runaway recursion in the implementation shall die quickly, not after 1 GB of stack
+	debug.SetMaxStack(16 << 20)
 	if os.Getenv("VERIF_LOG") == "" {
 		log.SetOutput(io.Discard)
 	}
 	id, tier := os.Args[1], os.Args[2]
 	if id == "replay" {
 		os.Exit(replay(os.Args[2]))
+	}
+	if id == "exec-one" { // exec-one <property> <part> <choices json>
+		body, ok := bodies[os.Args[2]+"/"+os.Args[3]]
+		var prefix []int
+		if !ok || json.Unmarshal([]byte(os.Args[4]), &prefix) != nil {
+			fmt.Fprintln(os.Stderr, "HARNESS-ERROR: exec-one: unknown part or bad choices")
+			os.Exit(3)
+		}
+		os.Exit(mc.ExecOne(body, prefix))
 	}
 	c, ok := checks[id]
 	if !ok {
